@@ -619,7 +619,8 @@ class Block(composites.Composite):
         """
         # this caching requires that you clear the cache every time you adjust anything
         # including temperature and dimensions.
-        area = self._getCached("area")
+        # (the cache holds the hot area only; the cold area is neither read from nor written to it)
+        area = None if cold else self._getCached("area")
         if area:
             return area
 
@@ -633,7 +634,8 @@ class Block(composites.Composite):
         # clipped by symmetry lines
         area = fullArea / self.getSymmetryFactor()
 
-        self._setCache("area", area)
+        if not cold:
+            self._setCache("area", area)
         return area
 
     def getVolume(self):
